@@ -144,3 +144,65 @@ Qed.
 
 Lemma read_full_length n s : (length (fst (read_full n s)) <= n)%nat.
 Proof. destruct (read_full_spec n s) as (c & ->). cbn [fst]. rewrite firstn_length. lia. Qed.
+
+(* ---- readers that report the end together with the last bytes ----
+   The io.Reader contract allows the Read that delivers the last bytes of the
+   stream to return the end error in the same call (n > 0, err = io.EOF;
+   iotest.DataErrReader, quic-go streams).  read_n_de is the loop
+       for n < min { nr, err := r.Read(buf[n:]); n += nr; if err != nil && n < min { return n, err } }
+   (and io.ReadAtLeast, which stops on the error and clears it when n >= min)
+   over such a reader: third component = the loop returned the error. *)
+Definition exhausted (s : stream) : bool := match snd s with [] => true | _ => false end.
+
+Fixpoint read_n_de (fuel n : nat) (s : stream) : bytes * stream * bool :=
+  match fuel with
+  | O => ([], s, (0 <? n)%nat)
+  | S f =>
+      match n with
+      | O => ([], s, false)
+      | S _ =>
+          match sread n s with
+          | None => ([], s, true)                       (* (0, EOF) *)
+          | Some (got, s') =>
+              if exhausted s' then                      (* this Read also returned EOF *)
+                (got, s', negb (n - length got =? 0)%nat)
+              else
+                let '(more, s'', fl) := read_n_de f (n - length got) s' in (got ++ more, s'', fl)
+          end
+      end
+  end.
+
+Definition read_full_de (n : nat) (s : stream) : bytes * stream * bool := read_n_de n n s.
+
+Lemma read_n_exhausted : forall fuel n s, exhausted s = true -> read_n fuel n s = ([], s).
+Proof.
+  intros fuel n s H. destruct fuel as [|f]; [reflexivity|]. cbn [read_n]. destruct n; [reflexivity|].
+  assert (E : sread (S n) s = None).
+  { apply sread_none. unfold exhausted in H. destruct (snd s); [reflexivity|discriminate]. }
+  rewrite E. reflexivity.
+Qed.
+
+(* such a reader makes no difference: same bytes, same rest, and the loop fails
+   exactly when fewer than n bytes exist *)
+Theorem read_n_de_eq : forall fuel n s,
+  (n <= fuel)%nat ->
+  read_n_de fuel n s = (fst (read_n fuel n s), snd (read_n fuel n s), (length (fst (read_n fuel n s)) <? n)%nat).
+Proof.
+  induction fuel as [|f IH]; intros n s Hn.
+  - assert (n = 0)%nat by lia. subst. reflexivity.
+  - cbn [read_n_de read_n]. destruct n as [|n']; [reflexivity|].
+    destruct (sread (S n') s) as [[got s1]|] eqn:E; [|reflexivity].
+    pose proof E as E'. apply sread_spec in E' as (k & Hk & Hkl & Hg & Hs); [|lia].
+    assert (Lg : length got = k) by (rewrite Hg, firstn_length; lia).
+    destruct (exhausted s1) eqn:Ex.
+    + rewrite (read_n_exhausted f _ s1 Ex). cbn [fst snd]. rewrite app_nil_r. f_equal.
+      rewrite Lg. destruct (Nat.eqb_spec (S n' - k) 0), (Nat.ltb_spec k (S n')); cbn [negb]; try reflexivity; lia.
+    + rewrite (IH (S n' - length got)%nat s1) by lia.
+      destruct (read_n f (S n' - length got) s1) as [more s2]. cbn [fst snd]. f_equal.
+      rewrite app_length, Lg.
+      destruct (Nat.ltb_spec (length more) (S n' - k)), (Nat.ltb_spec (k + length more) (S n')); try reflexivity; lia.
+Qed.
+
+Corollary read_full_de_eq n s :
+  read_full_de n s = (fst (read_full n s), snd (read_full n s), (length (fst (read_full n s)) <? n)%nat).
+Proof. apply read_n_de_eq. lia. Qed.
